@@ -2,6 +2,7 @@
 use super::*;
 use crate::chess::verif_chess::mk;
 use crate::nd;
+extern crate alloc;
 
 const CLOCK_MAX: u64 = u64::MAX;
 
@@ -81,4 +82,137 @@ pub fn c13_budget_movetime_with_clocks() {
         None => assert!(false, "C13: no budget computed"),
     }
     vcover!(true, "reachable");
+}
+
+// =================================================================================================
+// command_position's per-move step (slice verif_position_step)  -- C12 (acceptance) and C15 (length guard)
+// =================================================================================================
+#[cfg(kani)]
+pub mod step {
+    use super::*;
+    pub static mut PARSED: Option<Move> = None;
+    pub static mut LIST: [Option<Move>; 3] = [None, None, None];
+    pub static mut PUSHED: u8 = 0;
+    pub static mut PUSHED_MOVE: Option<Move> = None;
+    pub static mut LEN_AT_PUSH: usize = 0;
+    pub static mut ASKED_CHECKED: bool = true;
+    /// abstract parser: any answer
+    pub fn from_uci_notation(_s: &str, _g: &Game) -> Option<Move> { unsafe { PARSED } }
+    /// abstract generator: the checked list is any list of up to three moves
+    pub fn get_moves(_g: &mut Game, moves: &mut ArrayVec<Move, 256>, verify_king: bool) {
+        unsafe {
+            if !verify_king { ASKED_CHECKED = false; }
+            moves.clear();
+            if let Some(m) = LIST[0] { moves.push(m); }
+            if let Some(m) = LIST[1] { moves.push(m); }
+            if let Some(m) = LIST[2] { moves.push(m); }
+        }
+    }
+    /// abstract push_history: records the call; the game grows by one entry
+    pub fn push_history(g: &mut Game, m: Move) {
+        unsafe {
+            PUSHED += 1;
+            PUSHED_MOVE = Some(m);
+            LEN_AT_PUSH = g.len();
+        }
+        crate::chess::verif_chess::mk::grow_by_one(g);
+    }
+}
+
+/// One step of `position ... moves`:  for any parser answer, any checked list, any game of length < 400:
+///   * the move is played (push_history, exactly once, exactly the parsed move) iff the parser answered
+///     Some(m) and m is a member of the CHECKED list; otherwise an error is returned and nothing is played;
+///   * a parse failure drops the game; after a played move the game survives iff its length is < 400
+///     (so push is never reached with 400 or more entries: the 512-entry state stack cannot overflow here).
+#[cfg(kani)]
+#[kani::proof]
+#[kani::unwind(5)]
+#[kani::stub(Move::from_uci_notation, step::from_uci_notation)]
+#[kani::stub(Game::get_moves, step::get_moves)]
+#[kani::stub(Game::push_history, step::push_history)]
+#[kani::stub(std::backtrace::Backtrace::capture, backtrace_disabled)]
+#[kani::stub(alloc::fmt::format, format_empty)]
+pub fn position_step_contract() {
+    use crate::chess::verif_chess::{mk, sym_move};
+    let len0 = nd::u16() as usize;
+    nd::assume(1 <= len0 && len0 < 400);
+    let mut data = Data { current_game: Some(mk::game_with_len(len0)), cache: HashMap::with_hasher(BuildNoHashHasher::default()) };
+    let parsed = if nd::bool() { Some(sym_move(nd::u8_in(0, 4))) } else { None };
+    let l0 = if nd::bool() { Some(sym_move(nd::u8_in(0, 4))) } else { None };
+    let l1 = if nd::bool() { Some(sym_move(nd::u8_in(0, 4))) } else { None };
+    unsafe {
+        step::PARSED = parsed; step::LIST = [l0, l1, None]; step::PUSHED = 0; step::PUSHED_MOVE = None; step::ASKED_CHECKED = true;
+    }
+    let r = verif_position_step(&mut data, "e2e4");
+    let ok = r.is_ok();
+    core::mem::forget(r);
+    let member = parsed.is_some() && (parsed == l0 || parsed == l1);
+    let (pushed, pushed_move, len_at_push, asked_checked) = unsafe { (step::PUSHED, step::PUSHED_MOVE, step::LEN_AT_PUSH, step::ASKED_CHECKED) };
+    assert!(asked_checked, "C12: acceptance is tested against the unchecked move list");
+    if member {
+        assert!(pushed == 1 && pushed_move == parsed, "C12: a legal move was not played exactly once / another move was played");
+        assert!(len_at_push < 400, "C15: push reached with 400 or more state entries");
+        assert!(ok == (len0 + 1 < 400), "C15: length guard (error iff the game reached 400 entries)");
+        assert!(data.current_game.is_some() == (len0 + 1 < 400), "C15: a game of 400 entries is kept");
+    } else {
+        assert!(pushed == 0, "C12: a string that is not the text of a legal move was played");
+        assert!(!ok, "C12: a string that is not the text of a legal move was accepted without error");
+        if parsed.is_none() { assert!(data.current_game.is_none(), "C12: unparsable move keeps the game"); }
+    }
+    vcover!(member && len0 == 398, "playing the 399th entry reachable");
+    vcover!(!member && parsed.is_some(), "parsed but not legal reachable");
+}
+/// error texts are irrelevant to the contract; formatting them dominates CBMC's cost
+#[cfg(kani)]
+pub fn format_empty(_a: core::fmt::Arguments<'_>) -> String { String::new() }
+#[cfg(kani)]
+pub fn backtrace_disabled() -> std::backtrace::Backtrace { std::backtrace::Backtrace::disabled() }
+
+// =================================================================================================
+// self-play loop tail (slice verif_autoplay_tail) -- C15: push is never reached with a full state stack
+// =================================================================================================
+#[cfg(kani)]
+pub mod auto {
+    use super::*;
+    pub static mut ANSWER: Option<Move> = None;
+    pub static mut PUSHES: u8 = 0;
+    pub static mut LEN_AT_PUSH: usize = 0;
+    pub fn get_best_move_until_stop(_g: &Game, _t: &mut TranspositionTable, _c: &AtomicBool, _d: Option<u8>) -> Option<Move> { unsafe { ANSWER } }
+    pub fn push_history(g: &mut Game, _m: Move) { unsafe { PUSHES += 1; LEN_AT_PUSH = g.len(); } }
+}
+/// For a self-play game of ANY length so far (1..=512 state entries) and any search answer, the tail of
+/// the loop body reaches push_history only with at most 511 entries (push's precondition, WF5).
+#[cfg(kani)]
+#[kani::proof]
+#[kani::unwind(3)]
+#[kani::stub(crate::search::get_best_move_until_stop, auto::get_best_move_until_stop)]
+#[kani::stub(Game::push_history, auto::push_history)]
+pub fn autoplay_tail_respects_stack_capacity() {
+    use crate::chess::verif_chess::{mk, sym_move};
+    let len0 = nd::u16() as usize;
+    nd::assume(1 <= len0 && len0 <= 512);
+    let mut g = mk::game_with_len(len0);
+    let mut cache: TranspositionTable = HashMap::with_hasher(BuildNoHashHasher::default());
+    let flag = Arc::new(AtomicBool::new(true));
+    unsafe { auto::ANSWER = if nd::bool() { Some(sym_move(nd::u8_in(0, 4))) } else { None }; auto::PUSHES = 0; }
+    let _cont = crate::autoplay::verif_autoplay_tail(&mut g, &mut cache, &flag);
+    let (pushes, len_at_push) = unsafe { (auto::PUSHES, auto::LEN_AT_PUSH) };
+    assert!(pushes <= 1, "autoplay tail plays more than one move per iteration");
+    if pushes == 1 { assert!(len_at_push <= 511, "C15: self-play reaches push with a full 512-entry state stack (no length guard)"); }
+    vcover!(pushes == 1, "a move is played");
+}
+
+/// Native witness for the unguarded self-play loop: 512 plies played into the record by push_history
+/// (the only operation the loop performs on the game) overflow the 512-entry state stack.
+#[cfg_attr(verif_replay, test)]
+pub fn witness_d5_512_plies_overflow_state_stack() {
+    let mut g = Game::default();
+    let cycle = ["g1f3", "g8f6", "f3g1", "f6g8"];
+    for ply in 0..512 {
+        let m = Move::from_uci_notation(cycle[ply % 4], &g).unwrap();
+        let mut moves = ArrayVec::new();
+        g.get_moves(&mut moves, true);
+        assert!(moves.iter().any(|x| *x == m));
+        g.push_history(m);     // ply 511 (the 512th push) exceeds the stack: debug assertion in arrayvec / UB in release
+    }
 }
